@@ -224,7 +224,7 @@ func c02Case(r *Recorder, kk bool, lens []int, mk func(s *c02Session, honest []s
 	var results []string
 	var returned [][]byte
 	errs := 0
-	for wire.Len() > 0 && errs < 3 && len(results) < 200 {
+	for wire.Len() > 0 && errs < 3 && len(results) < 2000 {
 		got, err := s.reader.ReadMessage(wire)
 		if err != nil {
 			results = append(results, "err")
@@ -383,6 +383,34 @@ func TestC02(t *testing.T) {
 			}
 			return w
 		}, "random-script", i)
+	}
+	// across the first key rotation (1000 AEAD operations = 500 records): replays of
+	// first-epoch records and reflections of the other direction's first-epoch records,
+	// placed just before, at and just after the boundary
+	rot := make([]int, 503)
+	for j := range rot {
+		rot[j] = 2 + j%4
+	}
+	for _, at := range []int{499, 500, 501} {
+		for _, what := range []string{"replay-own-0", "reflect-other-0", "replay-own-last", "reflect-other-1"} {
+			at, what := at, what
+			c02Case(r, at%2 == 0, rot, func(s *c02Session, h []seg) []seg {
+				var ins []seg
+				switch what {
+				case "replay-own-0":
+					ins = []seg{h[0], h[1]}
+				case "replay-own-last":
+					ins = []seg{h[2*at-2], h[2*at-1]}
+				case "reflect-other-0":
+					ins = []seg{{own: false, use: 0, from: 0, to: len(s.units[1][0])}, {own: false, use: 1, from: 0, to: len(s.units[1][1])}}
+				case "reflect-other-1":
+					ins = []seg{{own: false, use: 2, from: 0, to: len(s.units[1][2])}, {own: false, use: 3, from: 0, to: len(s.units[1][3])}}
+				}
+				w := cloneSegs(h[:2*at])
+				w = append(w, ins...)
+				return append(w, h[2*at:]...)
+			}, "rotation-boundary", at)
+		}
 	}
 	// the resynchronisation attempt that the sticky error must defeat
 	c02Case(r, false, []int{2, 3}, func(s *c02Session, h []seg) []seg {
